@@ -187,11 +187,11 @@ example : toError 4 (fun a => (a, true)) [1, 2] = { res := [1, 2], err := (none 
 /-- the toerror wrapper has the naming structure of the C15 wrappers: it compiles when every
 parameter of `f` has a name that is none of the helper's own `f`, `err`, `success`, `out<i>` -/
 theorem toerror_compiles_partial (cfg : Plumb.Cfg) (ps : List Plumb.Param)
-    (hv : Plumb.ValidSig ps) (hs : Plumb.Side cfg [Plumb.fName, errName] ps)
+    (hv : Plumb.ValidSig ps) (hs : Plumb.Side cfg [Plumb.fName, Plumb.errName] ps)
     (hloc : ∀ n ∈ Plumb.names (toErrorParams cfg ps), n ≠ successName ∧ outPrefix.isPrefixOf n = false) :
     toErrorWf cfg ps = true :=
   toErrorWf_of cfg ps
-    (Plumb.effParams_namesOk cfg (by simp [Plumb.paramPrefix]) (by simp [Plumb.fName, errName, Plumb.paramPrefix]) ps hv hs) hloc
+    (Plumb.effParams_namesOk cfg (by simp [Plumb.paramPrefix]) (by simp [Plumb.fName, Plumb.errName, Plumb.paramPrefix]) Plumb.avoidOk_f_err ps hv hs) hloc
 
 example : toErrorWf {} [⟨['a'], 0⟩, ⟨['_'], 1⟩] = true :=
   toerror_compiles_partial {} [⟨['a'], 0⟩, ⟨['_'], 1⟩] (by decide) ⟨Or.inr (by decide), Or.inr (by decide)⟩ (by decide)
@@ -199,8 +199,8 @@ example : toErrorWf {} [⟨['a'], 0⟩, ⟨['_'], 1⟩] = true :=
 /-- today: unnamed parameters, and a parameter called `err` (it would be returned in place of the
 supplied error) or `f` -/
 theorem toerror_witnesses :
-    toErrorWf {} [⟨[], 0⟩] = false ∧ toErrorWf {} [⟨errName, 0⟩] = false ∧ toErrorWf {} [⟨['f'], 0⟩] = false ∧
-    toErrorWf Plumb.Cfg.fixed [⟨[], 0⟩] = true ∧ toErrorWf Plumb.Cfg.fixed [⟨errName, 0⟩] = true := by decide
+    toErrorWf {} [⟨[], 0⟩] = false ∧ toErrorWf {} [⟨Plumb.errName, 0⟩] = false ∧ toErrorWf {} [⟨['f'], 0⟩] = false ∧
+    toErrorWf Plumb.Cfg.fixed [⟨[], 0⟩] = true ∧ toErrorWf Plumb.Cfg.fixed [⟨Plumb.errName, 0⟩] = true := by decide
 
 /-! ### which types count as `error` (`derive.IsError` / `derive.ImplementsError`) -/
 
